@@ -129,13 +129,26 @@ func evalOp(op *Op, ecos []Eco, vw view) (res string) {
 		sb.WriteString(e.VString(v))
 		sb.WriteString("|self=")
 		sb.WriteString(strconv.Itoa(e.Compare(v, v)))
-		if a, ok := vw.V(op.E, op.A); ok {
+		// observe the new value against several pool values, so that a value
+		// that was built from the wrong parts is told apart from the right one
+		for k := 0; k < 4; k++ {
+			a, ok := vw.V(op.E, op.A+k)
+			if !ok {
+				if k == 0 {
+					continue
+				}
+				break
+			}
 			sb.WriteString("|ab=")
 			sb.WriteString(strconv.Itoa(e.Compare(v, a)))
 			sb.WriteString("|ba=")
 			sb.WriteString(strconv.Itoa(e.Compare(a, v)))
 		}
-		if r, ok := vw.R(op.E, op.R); ok {
+		for k := 0; k < 2; k++ {
+			r, ok := vw.R(op.E, op.R+k)
+			if !ok {
+				break
+			}
 			sb.WriteString("|in=")
 			sb.WriteString(strconv.FormatBool(e.Contains(r, v)))
 		}
@@ -151,7 +164,11 @@ func evalOp(op *Op, ecos []Eco, vw view) (res string) {
 		var sb strings.Builder
 		sb.WriteString("ok|")
 		sb.WriteString(e.RString(r))
-		if a, ok := vw.V(op.E, op.A); ok {
+		for k := 0; k < 3; k++ {
+			a, ok := vw.V(op.E, op.A+k)
+			if !ok {
+				break
+			}
 			sb.WriteString("|has=")
 			sb.WriteString(strconv.FormatBool(e.Contains(r, a)))
 		}
